@@ -111,6 +111,8 @@ fn cb_value() -> u64 {
 pub trait Elem: Sized + Clone + 'static {
     const ZST: bool;
     fn make(id: u64) -> Self;
+    /// a value that takes no part in the create/drop accounting (must never be dropped)
+    fn raw(id: u64) -> Self;
     fn ident(&self) -> u64;
     fn stash(self);
     fn pred(e: &mut Self) -> bool {
@@ -146,6 +148,9 @@ impl Elem for E {
     const ZST: bool = false;
     fn make(id: u64) -> E {
         CREATED.with(|c| c.borrow_mut().push(id));
+        E { id, check: id ^ MAGIC }
+    }
+    fn raw(id: u64) -> E {
         E { id, check: id ^ MAGIC }
     }
     fn ident(&self) -> u64 {
@@ -195,6 +200,9 @@ impl Elem for Z {
     const ZST: bool = true;
     fn make(_id: u64) -> Z {
         ZCREATED.with(|c| c.set(c.get() + 1));
+        Z
+    }
+    fn raw(_id: u64) -> Z {
         Z
     }
     fn ident(&self) -> u64 {
